@@ -1716,9 +1716,16 @@ def overstep_clip_only(case, base, r, dk, dr, ds):
     best = base["best_id"]
     if not set(dk) <= {"bestSolution"}:
         return False
-    if any(i != best or not set(kk) <= {"bestSolution"} for i, kk in dr):
+    # the member whose population the ensemble shared when it re-decorated (its best member AT THAT MOMENT: at the end
+    # another member may be the best) - one member only
+    touched = {i for i, kk in dr} | {i for i, kk in ds if i is not None}
+    if len(touched) > 1:
         return False
-    if any(i not in (None, best) or not set(kk) <= {"population"} for i, kk in ds):
+    if any(not set(kk) <= {"bestSolution"} for i, kk in dr):
+        return False
+    if any(not set(kk) <= {"population"} for i, kk in ds):
+        return False
+    if dk and touched and best not in touched:
         return False
     lo, hi = case["lo"], case["hi"]
 
@@ -1732,7 +1739,9 @@ def overstep_clip_only(case, base, r, dk, dr, ds):
     pairs = [(base["bestSolution"], r["bestSolution"])] + list(zip(base["population"], r["population"]))
     if len(base["population"]) != len(r["population"]):
         return False
-    if isinstance(best, int) and 0 <= best < len(base["members"]):
+    for best in sorted(touched | ({best} if isinstance(best, int) else set())):
+        if not (isinstance(best, int) and 0 <= best < len(base["members"])):
+            continue
         ma, mb = base["members"][best], r["members"][best]
         if len(ma["population"]) != len(mb["population"]):
             return False
@@ -1868,9 +1877,10 @@ def ens_stream(seed, shard, ncases, tier, hist, findings, samples, ks=None):
                                         "the ensemble raised %r" % (exc,), c)); continue
             bump("ens-runs:%s:%s" % (name, mtag))
             dk, dr, ds = ens_diff(base, r)
-            if (dk or dr or ds) and mtag == "step-over" and overstep_clip_only(case, base, r, dk, dr, ds):
-                # known finding F75: the ensemble's OWN re-decoration (its `_live` flag is off after Finalize) at a Step
-                # made after it has stopped clips, in place, the population it shares with its best member
+            if (dk or dr or ds) and mtag != "solve" and overstep_clip_only(case, base, r, dk, dr, ds):
+                # known finding F75: the ensemble's OWN re-decoration (its `_live` flag is off after Finalize) - at a Step made
+                # after it has stopped, or at the Solve() that follows a series of Steps - clips, in place, the population it
+                # shares with its best member; nothing else differs (checked by overstep_clip_only)
                 bump("ens:step-after-termination:outside-vertex-clipped")
                 if over_reported == 0:
                     c = dict(meta); c["map"] = name; c["mode"] = mode
